@@ -3,6 +3,7 @@
 #![deny(missing_docs)]
 #![deny(missing_debug_implementations)]
 #![forbid(unsafe_code)]
+#![cfg_attr(feature = "verif_hooks", allow(missing_docs, missing_debug_implementations))]
 
 #[macro_use]
 mod macros;
@@ -16,6 +17,13 @@ mod util;
 mod xz;
 
 use std::io;
+
+/// Verification-only re-exports of internal dictionary windows (feature `verif_hooks`).
+#[cfg(feature = "verif_hooks")]
+#[doc(hidden)]
+pub mod verif {
+    pub use crate::decode::lzbuffer::{LzAccumBuffer, LzBuffer, LzCircularBuffer};
+}
 
 /// Compression helpers.
 pub mod compress {
